@@ -39,6 +39,9 @@ def shards(tier, seed, scale=1.0):
     for s in range(16):
         out.append({'name': 'hyp-%d' % s, 'kind': 'hyp', 'seed': seed * 1000 + s, 'n': max(10, int(hyp_n * scale))})
     out.append({'name': 'posix', 'kind': 'posix', 'seed': seed})
+    L = 8 if tier == 'quick' else 32
+    for s in range(L):
+        out.append({'name': 'loose-%d' % s, 'kind': 'loose', 'shard': s, 'of': L, 'budget': 3 if tier == 'quick' else 4, 'nlen': 3})
     return out
 
 
@@ -49,6 +52,8 @@ def run_shard(desc):
         return run_hyp(desc, PROPERTY, select_c01)
     if desc['kind'] == 'posix':
         return run_posix(desc)
+    if desc['kind'] == 'loose':
+        return run_loose(desc, PROPERTY, select_c01)
     raise HarnessError(desc['kind'])
 
 
@@ -84,6 +89,33 @@ def run_enum(desc, prop, selector, hidden_bias=False, dots=(False, True)):
     return out
 
 
+LOOSE_ATOMS = (A.lit('a'), A.lit('.'), A.lit('('), A.lit(')'), A.lit('|'), A.lit('!'), A.lit('@'), A.lit('{'), A.ANY, A.STAR)
+
+
+def run_loose(desc, prop, selector, dots=(False, True)):
+    """Patterns whose literals are metacharacters, written with as few backslashes as possible (`*(x`, `a|b`, `!a`, `@(a` ...):
+    constructs that cannot be completed must degrade to their literal meaning."""
+    out = Outcome()
+    out.exhaustive = True
+    armed = desc['armed']
+    s, S = desc['shard'], desc['of']
+    idx = 0
+    for seq in A.enum_upto(desc['budget'], LOOSE_ATOMS, kinds='?*@!', max_depth=1, max_alts=2):
+        idx += 1
+        if idx % S != s:
+            continue
+        if A.render_loose(seq) == A.render(seq):
+            continue
+        alpha, _c = N.representatives([seq], extra='.', cap=6)
+        names = list(N.all_names(alpha, desc['nlen']))
+        out.stats['loose_patterns'] += 1
+        for dot in dots:
+            lang.eval_fn(seq, {'dot': dot, 'ext': True, 'loose': True}, names, out, armed, prop, selector(dot), entry=idx % 3, stream='loose')
+        if idx % 701 == s:
+            out.sample({'pattern': A.render_loose(seq), 'strict_spelling': A.render(seq), 'names': len(names), 'stream': 'loose'})
+    return out
+
+
 def run_hyp(desc, prop, selector, hidden_bias=False):
     from hypothesis import given, strategies as st, seed
     out = Outcome()
@@ -99,6 +131,8 @@ def run_hyp(desc, prop, selector, hidden_bias=False):
             return
         icase = mode in ('icase', 'icase+case')
         cfg = {'dot': dot, 'ext': True}
+        if entry == 1 and A.render_loose(seq) != A.render(seq):
+            cfg['loose'] = True
         if mode == 'icase':
             cfg['icase'] = True
         elif mode == 'case':
